@@ -395,7 +395,7 @@ def run_family(ctx, check, modes, shared=False):
     behaviours = []       # (label, list of histories)
     for mode in modes:
         depth = 3 if quick else 4
-        r = run_mc(ctx, mode, depth, export_every=2 if quick else 4)
+        r = run_mc(ctx, mode, depth, export_every=2 if quick else 12)
         cov["tlc"]["mc_%s_depth%d" % (mode, depth)] = r.summary()
         states += r.distinct
         trans += r.generated
@@ -405,24 +405,24 @@ def run_family(ctx, check, modes, shared=False):
         behaviours.append(("mc-%s" % mode, hs))
         # one level deeper, model checking only (mechanism against the property level, no replay);
         # in the quick tier only for the last mode of the list (C04/C05: notify also covers C06's ledger)
-        if not quick or mode == modes[-1]:
-            r = run_mc(ctx, mode, depth + 1, export_every=0, timeout=240 if quick else 2400, allow_timeout=True)
+        if mode == modes[-1]:
+            r = run_mc(ctx, mode, depth + 1, export_every=0, timeout=240 if quick else 900, allow_timeout=True)
             cov["tlc"]["mc_%s_depth%d_noexport" % (mode, depth + 1)] = dict(r.summary(), timed_out=bool(getattr(r, "timed_out", False)))
             states += r.distinct
             trans += r.generated
-        sim_depth, sim_num = (10, 400) if quick else (14, 4000)
+        sim_depth, sim_num = (10, 400) if quick else (14, 1500)
         r = run_sim(ctx, mode, sim_depth, sim_num)
         cov["tlc"]["sim_%s_depth%d" % (mode, sim_depth)] = r.summary()
         hs = [h for h in r.json if isinstance(h, list)]
         rng.shuffle(hs)
         behaviours.append(("sim-%s" % mode, hs[:sim_num]))
-        n, ln = (300, 40) if quick else (3000, 60)
-        k = 6 if quick else 60
+        n, ln = (300, 40) if quick else (1200, 60)
+        k = 6 if quick else 30
         behaviours.append(("rand-%s" % mode, [random_script(rng, mode, ln) for _ in range(n)] +
                            [crowd_script(rng, mode) for _ in range(k)] + [maccrowd_script(rng, mode) for _ in range(k)] +
                            [saturation_script(rng, mode) for _ in range(2 if quick else 10)]))
         # a legal configuration with PurgeDeadline < OfflineDeadline (separate TLC constants)
-        r = run_mc(ctx, mode, 3, export_every=4 if quick else 1, dl=ALT)
+        r = run_mc(ctx, mode, 3, export_every=4 if quick else 2, dl=ALT)
         cov["tlc"]["mc_%s_depth3_altdeadlines" % mode] = r.summary()
         states += r.distinct
         trans += r.generated
